@@ -295,7 +295,8 @@ def rule_r6(repo):
     rr = RuleResult('C19.R6', 'bytes are space-padded or truncated to the field width; text is encoded as latin-1')
     W = 'BitStringBitWriter'
     cases = [(b'AB', 4, b'AB  '), (b'ABCDEF', 4, b'ABCD'), (b'ABCD', 4, b'ABCD'), ('AB', 4, b'AB  '), ('ABCDEF', 4, b'ABCD'),
-             ('\xff\xff', 2, b'\xff\xff'), ('\xe9', 3, b'\xe9  '), (b'', 2, b'  '), (b'XY', None, b'XY'), ('', 0, b''), (b'Q', 1, b'Q')]
+             ('\xff\xff', 2, b'\xff\xff'), ('\xe9', 3, b'\xe9  '), (b'', 2, b'  '), (b'XY', None, b'XY'), ('', 0, b''), (b'Q', 1, b'Q'),
+             (b'AB', 0, b''), ('XYZ', 0, b''), (b'', None, b'')]
     for val, nbytes, want in cases:
         fi, res = call(repo, W, 'write_bytes', [val, nbytes])
         r, err = single(res, fi, 'write_bytes(%r, %r)' % (val, nbytes))
